@@ -38,7 +38,7 @@ StrLeaves(u_) == {L(s) : s \in {"", "a", "12", " 12 ", "+5", "1e3", "ab cd", " a
                             "-", ".", "Infinity", "NaN", "0x10", "12abc", "\t7\n", "-0", "007", "1000000000000000000000", "0.000001"}}
 SmallStrs == {L(s) : s \in {"", "a", "abc", "ab cd", "a~b^", "12", " a  b "}}
 BoolLeaves == {Fn0A("true"), Fn0A("false")}
-TreeLeaves == {Rel1(n) : n \in {"vabs", "vmulti", "vm2", "vempty", "vnum", "vneg", "vtxt"}}
+TreeLeaves == {Rel1(n) : n \in {"vabs", "vmulti", "vm2", "vone", "vempty", "vnum", "vneg", "vtxt"}}
 Leaves(u_) == NumLeaves \cup StrLeaves(0) \cup BoolLeaves \cup TreeLeaves \cup Specials
 NumLike == NumLeaves \cup Specials
 AllOps == ArithOps \cup CmpOps \cup BoolOps
@@ -71,7 +71,10 @@ Names == {"a", "b"}
 OpndPaths(u_) == {Path(r, s) : r \in {"abs", "cur"}, s \in {<<St("z")>>, <<St(".."), St("z")>>, <<St("y"), St(".."), St("z")>>}}
              \cup {Path("rel", <<St(".."), St("z")>>), Path("rel", <<St(".."), St(".."), St("z")>>), Path("cur", << >>)}
 OpndScalars == {L("x"), L(""), L("a b"), N("2", Num(2)), N("2.5", Fin(FALSE, 5, 2)), F2A("concat", L("p"), L("q")),
-                F1A("string", N("10", Num(10))), NegA(N1), Fn0A("true")}
+                F1A("string", N("10", Num(10))), NegA(N1), Fn0A("true"),
+                \* numbers whose XPath string-value differs from other customary spellings (no exponent, Infinity, -0 -> 0)
+                N("0.00001", P10(FALSE, -5)), N("123456.5", Fin(FALSE, 246913, 2)), N("100000000000000000000", P10(FALSE, 20)),
+                N("9007199254740991", Big(FALSE, 2)), XPInf, XNInf, XNaN, XNZero}
 Opnds(u_) == OpndScalars \cup OpndPaths(0)
 Preds1(keys, opnds) == {Pred(ky, o) : ky \in keys, o \in opnds}
 PredSeqs(u_) == {<< >>} \cup {<<p>> : p \in Preds1({"k", "j"}, Opnds(0))}
@@ -130,6 +133,16 @@ MixedOperands == {L("7"), F2A("concat", L("1"), L("2")), Rel1("vnum"), Path("abs
 Chain2Mixed(u_) == UNION {Chain2(x, y, OpC) : x \in MixedOperands, y \in {OpB, Rel1("vnum"), L("2"), Path("rel", <<St("..")>>)}}
                    \cup UNION {Chain2(OpA, x, OpC) \cup Chain2(OpA, OpB, x) : x \in {Path("rel", <<St("..")>>), Path("rel", <<St("a"), St("..")>>), Path("rel", <<St(".")>>)}}
 
+\* union binds tighter than unary minus: only empty node-sets (absent nodes) can be united on this data tree
+UnionOpnds == {Rel1("vabs"), Path("abs", <<St("a"), St("vabs")>>)}
+UnionChains(u_) ==
+  LET U == {BinA("|", x, y) : x \in UnionOpnds, y \in UnionOpnds}
+      Z == {Rel1("vabs"), OpB, L("2")}
+  IN U \cup {NegA(u) : u \in U} \cup {NegA(NegA(u)) : u \in U}
+       \cup {BinA(o, u, z) : o \in AllOps, u \in U, z \in Z} \cup {BinA(o, z, u) : o \in AllOps, u \in U, z \in Z}
+       \cup {BinA(o, NegA(u), z) : o \in AllOps, u \in U, z \in Z} \cup {BinA(o, z, NegA(u)) : o \in AllOps, u \in U, z \in Z}
+       \cup {BinA("|", u, x) : u \in U, x \in UnionOpnds}
+       \cup {BinA(o2, BinA(o1, z, u), OpC) : o1 \in AllOps, o2 \in AllOps, u \in U, z \in {OpB}}
 Family(i) ==
   CASE i = 1 -> D1Bin(ArithOps)
     [] i = 2 -> D1Bin({"=", "!="})
@@ -149,7 +162,8 @@ Family(i) ==
     [] i = 16 -> Chain3(0)
     [] i = 17 -> Chain2Mixed(0)
     [] i = 18 -> LLFirst(0)
-NFamilies == 18
+    [] i = 19 -> UnionChains(0)
+NFamilies == 19
 \* families 9 and 10 are big and come in NChunks chunks; the others are chunk 0 only
 FamilyC(i, c, C) ==
   IF i = 9 THEN D2Bin(ArithOps, c, C) ELSE IF i = 10 THEN D2Bin(CmpOps \cup BoolOps, c, C)
